@@ -7,9 +7,11 @@ import (
 	"github.com/btcsuite/btcd/btcec"
 )
 
-// VHarness_C09_secp256k1_jwk: unmarshalSecp256k1 on coordinates of arbitrary (symbolic) length:
-// accepted => X and Y present and exactly 32 bytes, D absent or exactly 32 bytes, and the point
-// (X, Y) passed the on-curve test; curveSize / dSize arithmetic is the real code.
+// VHarness_C09_secp256k1_jwk: the REAL (*JWK).UnmarshalJSON on a secp256k1 key whose decoded coordinates
+// have arbitrary (symbolic) length (the JSON/base64 decoding itself is replaced by handing the decoded
+// members over): accepted => X and Y present and exactly 32 bytes, D absent or exactly 32 bytes, and the
+// point (X, Y) passed the on-curve test; the size arithmetic is the real code. The harness enters through
+// the method, not through the unexported helper, so that refactorings of the helper do not break it.
 func VHarness_C09_secp256k1_jwk() {
 	bytesOf := map[*big.Int]string{}
 	pTok := new(big.Int)
@@ -45,7 +47,17 @@ func VHarness_C09_secp256k1_jwk() {
 	}
 	VAssume(VAnd(len(xb) <= 64, len(yb) <= 64, len(db) <= 64))
 
-	jwk, err := unmarshalSecp256k1(key) // REAL code
+	decode := func(data []byte, v interface{}) error {
+		if k, ok := v.(*jsonWebKey); ok {
+			*k = *key
+			return nil
+		}
+		return VErr("json: not the secp256k1 key form")
+	}
+	VStub("encoding/json.Unmarshal", decode)
+	VStub("github.com/square/go-jose/v3/json.Unmarshal", decode)
+	jwk := &JWK{}
+	err := jwk.UnmarshalJSON([]byte("{}")) // REAL code
 
 	if err != nil {
 		VCover("rejected")
@@ -60,5 +72,5 @@ func VHarness_C09_secp256k1_jwk() {
 	}
 	VAssert("C09/secp256k1-on-curve-test-consulted-and-true", VAnd(onCurveCalls == 1, onCurve))
 	VAssert("C09/secp256k1-on-curve-test-on-the-given-point", VAnd(onCurveX == string(xb), onCurveY == string(yb)))
-	VAssert("C09/secp256k1-key-returned", jwk != nil && jwk.Key != nil)
+	VAssert("C09/secp256k1-key-returned", jwk.JSONWebKey.Key != nil)
 }
